@@ -33,7 +33,7 @@ def hierarchy(d: Any) -> Dict[str, Any]:
 def oracle(case: Any, orders: List[List[int]], dumps: List[Any]) -> Optional[Dict[str, Any]]:
     """C06 on one project: what is documented is the same under every schedule; with import cycles at least the
     class hierarchy (resolved bases, linearisation) is."""
-    cyc = P.cycle_modules(case)
+    cyc = P.cycle_modules(case) or (case.get('raw') and case.get('cyclic'))     # raw projects carry source text only
     ref = dumps[0]
     for o, d in zip(orders[1:], dumps[1:]):
         if 'exc' in ref or 'exc' in d:
@@ -245,6 +245,88 @@ def plain_import_rebinding(case: Any, observed: Any) -> bool:
     return True
 
 
+def class_scope_cases() -> List[Any]:
+    """Oracle-only projects (imports inside class bodies and nested classes are outside the model): a NESTED class whose
+    base expression starts with a name that only an ENCLOSING CLASS body binds, by an import that does not analyse the
+    imported module on demand (plain `import`), or by a from-import of a module that is still being analysed (import
+    cycle).  Under the orders that reach the nested class before the module of its base, the base is unresolved at visit
+    time and only the second base-resolution pass can find it; what it finds must be what the other orders found at
+    visit time (lookup from the enclosing class, not from the module).  Variations: how the name is bound (plain import
+    with / without `as`, of a root module or of a sub-module of a package, from-import in a cycle), nesting depth of the
+    class under the binding class, a DIFFERENT binding of the same name at module level (decoy), position of the
+    defining module among its siblings (name sorting before / after the user), a consumer module that inherits through
+    the nested class."""
+    out: List[Any] = []
+
+    def mod(name: str, src: str, parent: Optional[int] = None, pkg: bool = False) -> Any:
+        return {'name': name, 'parent': parent, 'pkg': pkg, 'doc': None, 'stmts': [], 'src': src}
+
+    BASES = ('class Root:\n    "root of %(m)s"\n    def handle(self):\n        "doc of %(m)s.Root.handle"\n'
+             'class Base(Root):\n    "base of %(m)s"\n')
+
+    def user(binder: str, expr: str, depth: int, decoy: Optional[str], extra_base: Optional[str] = None) -> str:
+        L = []
+        if decoy:
+            L.append(decoy)
+        L.append('class Registry:')
+        L.append('    "registry"')
+        L.append('    ' + binder)
+        ind = '    '
+        for d in range(depth - 1):
+            L.append(ind + 'class Group%d:' % d)
+            L.append(ind + '    "group %d"' % d)
+            ind += '    '
+        bs = [expr] + ([extra_base] if extra_base else [])
+        L.append(ind + 'class Default(%s):' % ', '.join(bs))
+        L.append(ind + '    "default handler"')
+        L.append(ind + '    def extra(self):')
+        L.append(ind + '        "doc of Default.extra"')
+        return '\n'.join(L) + '\n'
+
+    def consumer(uname: str, depth: int) -> str:
+        path = 'Registry.' + ''.join('Group%d.' % d for d in range(depth - 1)) + 'Default'
+        return 'from %s import Registry\nclass Sub(%s):\n    "sub"\n' % (uname, path)
+
+    # (label, defining module name, user module name, binder statement, base expression)
+    forms = [
+        ('import-as', 'handlers', 'app', 'import handlers as h', 'h.Base'),
+        ('import', 'handlers', 'app', 'import handlers', 'handlers.Base'),
+        ('import-as-user-sorts-last', 'handlers', 'zapp', 'import handlers as h', 'h.Base'),
+    ]
+    for label, dname, uname, binder, expr in forms:
+        for depth in (1, 2):
+            for decoy in (None, 'import decoy as %s' % expr.split('.')[0]):
+                if decoy and depth == 2:
+                    continue
+                mods = [mod(uname, user(binder, expr, depth, decoy)), mod(dname, BASES % {'m': dname}),
+                        mod('extra', consumer(uname, depth))]
+                if decoy:
+                    mods.append(mod('decoy', BASES % {'m': 'decoy'}))
+                out.append({'mods': mods, 'queries': [], 'raw': True, 'class_scope': True,
+                            'label': 'raw/class-scope-%s-depth%d%s' % (label, depth, '-decoy' if decoy else '')})
+    # the base lives in a sub-module of a package
+    for label, binder, expr in (('pkg-import-as', 'import pkg.handlers as h', 'h.Base'),
+                                ('pkg-import', 'import pkg.handlers', 'pkg.handlers.Base')):
+        for depth in (1, 2):
+            mods = [mod('app', user(binder, expr, depth, None)), mod('pkg', '', pkg=True),
+                    mod('handlers', BASES % {'m': 'pkg.handlers'}, parent=1), mod('extra', consumer('app', depth))]
+            out.append({'mods': mods, 'queries': [], 'raw': True, 'class_scope': True,
+                        'label': 'raw/class-scope-%s-depth%d' % (label, depth)})
+    # two bases, one bound in the class body and one at module level
+    mods = [mod('app', 'import mixins\n' + user('import handlers as h', 'h.Base', 1, None, 'mixins.Mixin')),
+            mod('handlers', BASES % {'m': 'handlers'}), mod('mixins', 'class Mixin:\n    "mixin"\n'),
+            mod('extra', consumer('app', 1))]
+    out.append({'mods': mods, 'queries': [], 'raw': True, 'class_scope': True, 'label': 'raw/class-scope-two-bases'})
+    # from-import in the class body of a module on an import cycle (the class hierarchy is what is claimed)
+    for depth in (1, 2):
+        mods = [mod('app', user('from handlers import Base', 'Base', depth, None)),
+                mod('handlers', 'from app import Registry\n' + BASES % {'m': 'handlers'} + 'def make() -> Registry:\n    "factory"\n'),
+                mod('extra', consumer('app', depth))]
+        out.append({'mods': mods, 'queries': [], 'raw': True, 'class_scope': True, 'cyclic': True,
+                    'label': 'raw/class-scope-from-in-cycle-depth%d' % depth})
+    return out
+
+
 def gen_random(rng: random.Random) -> Any:
     """random project in which every object has at most one re-exporter (the quantifier of C06/C07)"""
     while True:
@@ -328,7 +410,7 @@ class Check(PropertyCheck):
             c['label'] = 'family3'
         out.extend(fam3)
         self.stats['exhaustive_bound'] = ('all projects of 2 flat modules x {from, star, import-module} and of 3 flat modules x %s, '
-                                          'every schedule; re-export matrix 2x3x6, every schedule; 11 oracle-only projects (inherited re-binding through module aliases)'
+                                          'every schedule; re-export matrix 2x3x6, every schedule; oracle-only projects, every schedule: inherited re-binding through module aliases, exception hierarchies, and 16 projects with a nested class whose base is bound by an import in an enclosing class body (plain import / from-import in a cycle, depth 1-2, module-level decoy, package sub-module)'
                                           % ('{from, star, import-module}' if thorough else '{from}'))
         self.exhaustive = True
         nrand = 3000 if thorough else 140
@@ -409,9 +491,11 @@ class Check(PropertyCheck):
                     norc += 1
                     out.append(vio)
         # oracle-only projects (shapes the model does not cover: inherited lookups)
-        raw = P.raw_cases()
+        raw = P.raw_cases() + class_scope_cases()
         for c, orders, im, complete in self.run_cases(raw):
             self.count('projects_raw')
+            if c.get('class_scope'):
+                self.count('projects_raw_base_bound_in_enclosing_class')
             self.evaluations += len(orders)
             nt.add(json.dumps(c['mods'], sort_keys=True))
             for vio in self.project_oracle(c, orders, im):
